@@ -427,17 +427,24 @@ impl<F: PathFetcher> PathSet<F> {
                 );
 
                 self.update_path_cache(fetched_paths, now, manager);
-                let earliest_expiry = self
-                    .earliest_expiry()
-                    .expect("should have a path available, as new paths were ingested");
+                // The cache can be empty here: a fetched path that refreshes a cached one but is
+                // itself already expired is dropped again. Then just retry after the minimum
+                // delay.
+                let refetch_candidate = match self.earliest_expiry() {
+                    // Either after refetch interval, or before earliest expiry
+                    Some(earliest_expiry) => {
+                        (now + self.config.refetch_interval)
+                            .min(earliest_expiry - self.config.min_expiry_threshold)
+                    }
+                    None => now,
+                };
 
                 // Reset error state
                 self.shared.sync.lock().unwrap().current_error = None;
                 self.internal.failed_attempts = 0;
                 // Update next refetch time
                 self.internal.next_refetch =
-                // Either after refetch interval, or before earliest expiry
-                (now + self.config.refetch_interval).min(earliest_expiry - self.config.min_expiry_threshold)
+                refetch_candidate
                 // But at least after min refetch delay
                 .max(now + self.config.min_refetch_delay);
             }
